@@ -39,7 +39,7 @@ let handle (line : string) : string =
       string_of_bytes (hexs (sen_string (html = "1") (bytes_of_hex hex)))
   | ["senread"; hex] ->
       string_of_bytes (show_read (bytes_of_hex hex))
-  | ["jppath"; frags] ->
+  | [("jppath" | "jppathb") as cmd; frags] ->
       let fr w = match w.[0] with
         | 'c' -> NChild (bytes_of_hex (String.sub w 1 (String.length w - 1)))
         | 'w' -> NWild (w = "w*")
@@ -51,7 +51,7 @@ let handle (line : string) : string =
             NUnion (List.map mem (List.filter (fun x -> x <> "") (String.split_on_char ',' (String.sub w 1 (String.length w - 1)))))
         | _ -> NNth (z_of_string (String.sub w 1 (String.length w - 1))) in
       let fs = List.map fr (List.filter (fun x -> x <> "") (String.split_on_char ' ' frags)) in
-      string_of_bytes (hex_of_bytes (print_path fs))
+      string_of_bytes (hex_of_bytes ((if cmd = "jppath" then print_path else print_path_b) fs))
   | ["jpparse"; hex] ->
       string_of_bytes (model_jpparse (bytes_of_hex hex))
   | ["jpread"; delim; hex] ->
